@@ -355,9 +355,41 @@ def _after_first_rule_colon(t, ins, rule=None):
 # ---------------------------------------------------------------------------------------------
 
 def interaction_grammar(rng: random.Random):
-    if rng.random() < 0.5:
+    r = rng.random()
+    if r < 0.34:
         return _interaction_shared_guarded_rule(rng)
-    return _interaction_choice_closing_rule(rng)
+    if r < 0.67:
+        return _interaction_choice_closing_rule(rng)
+    return _interaction_choice_state(rng)
+
+
+def _interaction_choice_state(rng: random.Random):
+    """a three- or four-way ordered choice whose alternatives rename / elide the rule node *before* the token at which
+    they can fail, so that an abandoned attempt has rule-node state to leave behind and a middle alternative can inherit it"""
+    n = name
+    toks = ["P", "Q", "R", "S", "T", "U", "SEMI", "V"]
+    names = ["n1", "n2", "n3"]
+    use_elide = rng.random() < 0.5
+
+    def alt_(seq, may_rename, may_elide):
+        items = [n("P")]
+        sem = []
+        if may_rename and rng.random() < 0.7:
+            sem.append(rename(rng.choice(names)))
+        if may_elide and use_elide and rng.random() < 0.5:
+            sem.append(elide())
+        body = [n(t) for t in seq]
+        pos = rng.randint(0, max(0, len(body) - 1))        # before the last token: runs before the attempt can fail there
+        return concat(*(items + body[:pos] + sem + body[pos:]))
+
+    alts = [alt_(["Q", "R"], True, True), alt_(["Q", "S"], rng.random() < 0.4, False), alt_(["T", "V"], True, True)]
+    if rng.random() < 0.5:
+        alts.insert(2, alt_(["Q", "U"], rng.random() < 0.3, False))
+    alts.append(alt_(["U"], rng.random() < 0.5, False))
+    rules = [("s", star(paren(concat(n("r"), n("SEMI")))), False), ("r", choice(*alts), False)]
+    skip = ["Ws"] if rng.random() < 0.5 else []
+    g = _g(toks + skip, rules, skip=skip)
+    return g, {"profile": "interaction", "features": ["choice", "rename_in_choice", "star", "choice_state"] + (["elide_atom", "elide_in_choice"] if use_elide else []), "skipped": skip}
 
 
 def _interaction_choice_closing_rule(rng: random.Random):
